@@ -17,18 +17,18 @@ Mat2 == [ident |-> <<<<1, -1>>, <<-1, 1>>>>,
          asym  |-> <<<<2, -1>>, <<0, 1>>>>,
          cross |-> <<<<-1, 1>>, <<2, -3>>>>,
          steep |-> <<<<3, -4>>, <<-4, 2>>>>]
-BandGapsQuick == {<<0>>, <<-1>>, <<-2, -1>>, <<-1, -2>>}
-BandGapsFull == {<<0>>, <<-1>>, <<-3>>, <<-2, -1>>, <<-1, -2>>, <<0, 0>>}
-SeedGapsQuick == {<<-1>>, <<-2, -1>>, <<-1, -2>>}
-SeedGapsFull == {<<-1>>, <<-3>>, <<-2, -1>>, <<-1, -2>>, <<-1, -1>>}
-ThresholdsQuick == {0, 1, 3, 100}
+BandGapsQuick == {<<0>>, <<-1>>, <<-2, -1>>, <<0, 0>>}
+BandGapsFull == {<<0>>, <<-1>>, <<-1, -2>>, <<-2, -1>>}
+SeedGapsQuick == {<<-1>>, <<-2, -1>>}
+SeedGapsFull == {<<-1>>, <<-3>>, <<-2, -1>>, <<-1, -2>>}
+ThresholdsQuick == {0, 1, 100}
 ThresholdsFull == {0, 1, 2, 3, 100}
 NoGap == <<-1>>
-(* full, wider than the table, reversed, main diagonal, narrow, reversed narrow, upper part,
-   lower part without the main diagonal, partly outside, completely outside *)
-BandPairsQuick == {<<-2, 2>>, <<-5, 4>>, <<2, -2>>, <<0, 0>>, <<-1, 1>>, <<1, -1>>, <<0, 2>>, <<-2, -1>>,
-                   <<1, 3>>, <<3, 4>>}
-BandPairsFull == (-4..4) \X (-4..4)
+(* full, wider than the table, reversed full, main diagonal, reversed narrow, upper part,
+   lower part without the main diagonal, completely outside *)
+BandPairsQuick == {<<-2, 2>>, <<-5, 4>>, <<2, -2>>, <<0, 0>>, <<1, -1>>, <<0, 2>>, <<-2, -1>>, <<3, 4>>}
+BandDiags == {-4, -2, -1, 0, 1, 2, 3}
+BandPairsFull == BandDiags \X BandDiags
 Seqs == UNION {[1..len -> 0..1] : len \in 1..MaxLen}
 Dirs == {"both", "upstream", "downstream"}
 Mats == {Mat2[id] : id \in MatIds}
@@ -45,22 +45,24 @@ Input(op, s1, s2, mat, gap, band, local, seed, X, dir) ==
 BandedInputs ==
   {Input("banded", s1, s2, mat, gap, bd, local, <<0, 0>>, 0, "both") :
      s1 \in Seqs, s2 \in Seqs, mat \in Mats, gap \in BandGaps, bd \in BandPairs, local \in BOOLEAN}
-SeedsOf(s1, s2) == (0..(Len(s1) - 1)) \X (0..(Len(s2) - 1))
+(* every (s1, s2, seed) with the seed inside both sequences; written as a filter and as plain
+   set comprehensions: TLC's UNION of many sets is quadratic in the number of elements *)
+SeededTriples ==
+  {t \in Seqs \X Seqs \X ((0..(MaxLen - 1)) \X (0..(MaxLen - 1))) :
+     t[3][1] < Len(t[1]) /\ t[3][2] < Len(t[2])}
 UngappedInputs ==
-  UNION {{Input("ungapped", s1, s2, mat, NoGap, <<0, 0>>, TRUE, seed, X, dir) :
-            seed \in SeedsOf(s1, s2), mat \in SeedMats, X \in Thresholds, dir \in Dirs}
-         : s1 \in Seqs, s2 \in Seqs}
+  {Input("ungapped", t[1], t[2], mat, NoGap, <<0, 0>>, TRUE, t[3], X, dir) :
+     t \in SeededTriples, mat \in SeedMats, X \in Thresholds, dir \in Dirs}
 GappedInputs ==
-  UNION {{Input("gapped", s1, s2, mat, gap, <<0, 0>>, TRUE, seed, 0, dir) :
-            seed \in SeedsOf(s1, s2), mat \in SeedMats, gap \in SeedGaps, dir \in Dirs}
-         : s1 \in Seqs, s2 \in Seqs}
+  {Input("gapped", t[1], t[2], mat, gap, <<0, 0>>, TRUE, t[3], 0, dir) :
+     t \in SeededTriples, mat \in SeedMats, gap \in SeedGaps, dir \in Dirs}
 
 NoOut == [oc |-> "ok", score |-> 0, opt |-> 0, must |-> FALSE, kb |-> FALSE, ntr |-> 0,
           le |-> TRUE, eq |-> TRUE, valid |-> TRUE, honest |-> TRUE]
 
-Init == /\ inp \in (IF "banded" \in Ops THEN BandedInputs ELSE {})
-                   \cup (IF "ungapped" \in Ops THEN UngappedInputs ELSE {})
-                   \cup (IF "gapped" \in Ops THEN GappedInputs ELSE {})
+Init == /\ \/ "banded" \in Ops /\ inp \in BandedInputs
+           \/ "ungapped" \in Ops /\ inp \in UngappedInputs
+           \/ "gapped" \in Ops /\ inp \in GappedInputs
         /\ phase = "in"
         /\ out = NoOut
 
@@ -75,7 +77,7 @@ OutBanded ==
            opt == UnrestrictedOpt(s1, s2, M, gap, inp.local)
            must == BandFull(inp.band, n, m) /\ SomeOptimumPairs(s1, s2, M, gap, inp.local, opt)
        IN [oc |-> "ok", score |-> r.score, opt |-> opt, must |-> must,
-           kb |-> ~inp.local /\ KB_C09_BoundaryGap(M, gap),
+           kb |-> ~inp.local /\ KB_C09_BoundaryGap(M, gap, AMax2(n, m)),
            ntr |-> Cardinality(r.traces),
            le |-> r.score <= opt,
            eq |-> (must => r.score = opt),
